@@ -315,6 +315,139 @@ func (c *ctx) check(ns, mode string, element string, prog c08.Prog, class string
 	}
 }
 
+// session runs several elements in ONE session (handler direct), each invocation with its own
+// program, and judges every request separately: the replies to its id on the wire are the
+// replies its own handler wrote or, if none, exactly one automatic error, plus whatever other
+// invocations wrote with that id (replies interleaved by the handlers themselves).
+func (c *ctx) session(ns string, elements []string, progs []c08.Prog, class string) {
+	r := c.r
+	local, remote := c08.LocalJID, c08.RemoteJID
+	if ns == c08.NSServer {
+		local, remote = c08.LocalSrv, c08.RemoteSrv
+	}
+	body := []byte(strings.Join(elements, "") + "</stream:stream>")
+	toks := c08.Tokens(ns, body)
+	res := c08.Serve(ns, local, remote, body, progs, nil)
+	line := c08.CaseLine(ns, res.LocalBare, toks, progs)
+	lines := []string{r.Prop + " " + line, "#session " + common.HexS(strings.Join(elements, "\x00"))}
+	if res.Stall || res.Panic != "" {
+		r.Line(line, "PANIC-OR-STALL")
+		r.Fail("no-panic", "panic", lines, res.Panic)
+		return
+	}
+	els, _, _ := c08.Written(ns, res.Out)
+	wobs, _ := c08.WrittenObs(els)
+	cls := c08.ErrClass(res.Err)
+	r.Line(line, wobs+" "+cls)
+	r.Case(line, true, fmt.Sprintf("%s/session/%d/%s", class, len(elements), cls))
+	if cls != "clean" {
+		return
+	}
+	// the requests of the session, in order (top-level start tags of the input)
+	type rq struct {
+		k             int
+		id, typ, from string
+		space         string
+	}
+	var reqs []rq
+	depth, k := 0, 0
+	for _, t := range toks {
+		switch tt := t.(type) {
+		case xml.StartElement:
+			if depth == 0 {
+				if tt.Name.Local == "iq" && (tt.Name.Space == c08.NSClient || tt.Name.Space == c08.NSServer) {
+					q := rq{k: k, id: c08AttrVal(tt.Attr, "id"), typ: c08AttrVal(tt.Attr, "type"), from: c08AttrVal(tt.Attr, "from"), space: tt.Name.Space}
+					if (q.typ == "get" || q.typ == "set") && q.id != "" {
+						reqs = append(reqs, q)
+					}
+				}
+				k++
+			}
+			depth++
+		case xml.EndElement:
+			depth--
+		}
+	}
+	var outEls []c08.Elem
+	for _, e := range els {
+		if !e.StreamError {
+			outEls = append(outEls, e)
+		}
+	}
+	wrote := func(j int, id string) int {
+		if j >= len(progs) {
+			return 0
+		}
+		var w []xml.Token
+		for _, o := range progs[j].Ops {
+			w = append(w, o.Write...)
+		}
+		n := 0
+		for _, e := range splitTop(w) {
+			if isReply(e, id, ns) {
+				n++
+			}
+		}
+		return n
+	}
+	total := 0
+	for j := 0; j < k; j++ {
+		if j < len(progs) {
+			var w []xml.Token
+			for _, o := range progs[j].Ops {
+				w = append(w, o.Write...)
+			}
+			total += len(splitTop(w))
+		}
+	}
+	added := len(outEls) - total
+	wantAdded := 0
+	seen := map[string]bool{}
+	for _, q := range reqs {
+		own := wrote(q.k, q.id)
+		others := 0
+		for j := 0; j < k; j++ {
+			if j != q.k {
+				others += wrote(j, q.id)
+			}
+		}
+		want := own + others
+		if own == 0 {
+			want++
+			wantAdded++
+		}
+		if seen[q.id] {
+			continue // two requests with the same id: judged together below through `added`
+		}
+		dup := 0
+		for _, q2 := range reqs {
+			if q2.id == q.id {
+				dup++
+			}
+		}
+		if dup > 1 {
+			seen[q.id] = true
+			continue
+		}
+		got := 0
+		for _, e := range outEls {
+			if isReply(e.Toks, q.id, ns) {
+				got++
+			}
+		}
+		if got != want {
+			key := "session-missing"
+			if got > want {
+				key = "session-double"
+			}
+			r.Fail("answered-once", key, lines, fmt.Sprintf("request %d (id %q): %d replies on the wire, want %d (own handler %d, other handlers %d)", q.k, q.id, got, want, own, others))
+		}
+	}
+	if added != wantAdded {
+		r.Fail("no-auto-reply", "session-added", lines, fmt.Sprintf("the session added %d elements, want %d (one per unanswered request)", added, wantAdded))
+	}
+}
+
 var payloads = []string{
 	`<q xmlns="urn:q"/>`,
 	``,
@@ -369,6 +502,26 @@ func Run(r *common.Run) error {
 		}
 		for i, l := range lines {
 			f := strings.Fields(l)
+			if len(f) == 2 && f[0] == "#session" && i > 0 {
+				sb, err := common.UnHex(f[1])
+				if err != nil {
+					return err
+				}
+				g := strings.Fields(lines[i-1])
+				if len(g) < 7 {
+					continue
+				}
+				ns := c08.NSClient
+				if g[2] == "s" {
+					ns = c08.NSServer
+				}
+				ps, err := c08.DecProgs(g[6])
+				if err != nil {
+					return err
+				}
+				c.session(ns, strings.Split(string(sb), "\x00"), ps, "replay")
+				continue
+			}
 			if len(f) < 2 || f[0] != "#elem" || i == 0 {
 				continue
 			}
@@ -460,6 +613,56 @@ func Run(r *common.Run) error {
 		}
 	}
 	r.Exhaustive = append(r.Exhaustive, fmt.Sprintf("incoming element (5 names x 6 types x 3 from values x %d payload shapes) x every single handler write out of %d x 3 modes; every ordered pair of writes for get/set requests", len(payloads), len(writeNames)))
+
+	// several elements in one session: requests with distinct (and sometimes equal) ids,
+	// replies, other stanzas; handlers that answer their own request, an earlier or a later one
+	rndS := r.Rnd.Fork()
+	ns2 := r.Pick(1500, 15000)
+	for i := 0; i < ns2; i++ {
+		ns := c08.NSClient
+		if rndS.Chance(1, 4) {
+			ns = c08.NSServer
+		}
+		cnt := 2 + rndS.Intn(4)
+		var elements []string
+		var progs []c08.Prog
+		ids := make([]string, cnt)
+		for k := range ids {
+			ids[k] = fmt.Sprintf("s%d", k)
+			if rndS.Chance(1, 10) && k > 0 {
+				ids[k] = ids[k-1]
+			}
+		}
+		for k := 0; k < cnt; k++ {
+			l := locals[0]
+			if rndS.Chance(1, 4) {
+				l = locals[1+rndS.Intn(len(locals)-1)]
+			}
+			typ := types[rndS.Intn(2)]
+			if rndS.Chance(1, 4) {
+				typ = types[rndS.Intn(len(types))]
+			}
+			from := []string{"-", "a@example.org/r", "b@example.org"}[rndS.Intn(3)]
+			elements = append(elements, element(l.local, l.ns, ids[k], typ, from, "-", "", payloads[rndS.Intn(len(payloads))]))
+			if rndS.Chance(1, 5) {
+				elements = append(elements, []string{" ", "\n"}[rndS.Intn(2)])
+			}
+			var p c08.Prog
+			p.Ret = "ok"
+			for q := rndS.Intn(4); q > 0; q-- {
+				p.Ops = append(p.Ops, c08.Op{Read: true})
+			}
+			for q := rndS.Intn(3); q > 0; q-- {
+				target := ids[k]
+				if rndS.Chance(1, 3) {
+					target = ids[rndS.Intn(cnt)]
+				}
+				p.Ops = append(p.Ops, c08.Op{Write: writes(target)[writeNames[rndS.Intn(len(writeNames))]]})
+			}
+			progs = append(progs, p)
+		}
+		c.session(ns, elements, progs, "session")
+	}
 
 	// random
 	rnd := r.Rnd
